@@ -498,3 +498,57 @@ def replay_sample_tasks(start_seed, n):
     finally:
         T.multiprocessing = real_mp
         shutil.rmtree(d, ignore_errors=True)
+
+
+# ---- reproducibility of jitter across interpreter processes (hash seeds) -------------------------------------------
+_HS_SCRIPT = r"""
+import os, sys, io, contextlib, logging
+sys.path.insert(0, os.environ["EUDOXIA_REPO"])
+logging.disable(logging.CRITICAL)
+from eudoxia.tools import jitter_command, snap_command
+d = sys.argv[1]
+with contextlib.redirect_stdout(io.StringIO()):
+    jitter_command(os.path.join(d, "in.csv"), os.path.join(d, "j.csv"), 0.75, seed=int(sys.argv[2]), force=True)
+    snap_command(os.path.join(d, "j.csv"), os.path.join(d, "s.csv"), 10, force=True)
+sys.stdout.write(open(os.path.join(d, "j.csv")).read() + "====\n" + open(os.path.join(d, "s.csv")).read())
+"""
+
+
+def replay_jitter_hashseed(seed=5, hashseeds=(0, 1, 2, 3, 4, 5)):
+    """Native differential run (not a solver verdict): the real jitter_command (then snap_command) on one trace with
+    eight pipelines in fresh interpreter processes that differ only in PYTHONHASHSEED must write identical files."""
+    import tempfile, shutil, subprocess
+    d = tempfile.mkdtemp(prefix="vjhs_")
+    try:
+        rows = ["pipeline_id,arrival_seconds,priority,operator_id,parents,baseline_cpu_seconds,cpu_scaling,memory_gb,storage_read_gb"]
+        for i, pid in enumerate(["p1", "p2", "p3", "p10", "q", "zeta", "p11", "a"]):
+            rows.append(f"{pid},{0.5 * (i // 2)!r},BATCH_PIPELINE,op1,,1.5,const,,2.0")
+            if i % 2:
+                rows.append(f"{pid},,,op2,op1,0.5,linear3,4.0,1.0")
+        open(os.path.join(d, "in.csv"), "w").write("\n".join(rows) + "\n")
+        outs = {}
+        for hs in hashseeds:
+            env = dict(os.environ, PYTHONHASHSEED=str(hs), EUDOXIA_REPO=REPO)
+            env.pop("PYTHONPATH", None)
+            r = subprocess.run([sys.executable, "-B", "-c", _HS_SCRIPT, d, str(seed)], env=env, capture_output=True, text=True, timeout=120)
+            if r.returncode != 0:
+                return f"C20:jitter_raised_in_fresh_process:{r.stderr.strip().splitlines()[-1][:120] if r.stderr.strip() else r.returncode}"
+            outs[hs] = r.stdout
+        ref = outs[hashseeds[0]]
+        for hs in hashseeds[1:]:
+            if outs[hs] != ref:
+                return f"C20:jitter_not_reproducible_for_a_seed(differs between PYTHONHASHSEED={hashseeds[0]} and {hs})"
+        return ""
+    finally:
+        shutil.rmtree(d, ignore_errors=True)
+
+
+def jitter_hashseed(tier="quick"):
+    res = Result()
+    for sd in ((5, 42) if tier == "quick" else (5, 42, 0, 1, 7, 123456)):
+        hs = (0, 1, 2, 3, 4, 5) if tier == "quick" else tuple(range(12))
+        rep = replay_jitter_hashseed(sd, hs)
+        if rep:
+            return res.out("violated", rep, {"replay": {"kind": "kn", "func": "vf.kernels.c20:replay_jitter_hashseed", "args": dict(seed=sd, hashseeds=list(hs))}})
+    res.notes.append("native differential run, not a solver verdict: hash randomisation of the interpreter is not a solver variable")
+    return res.out("discharged", "real jitter_command + snap_command in fresh processes under 6 (12) hash seeds: byte-identical output")
